@@ -66,6 +66,9 @@ class BayesianART(BaseART):
         assert params["cov_init"].ndim == 2
         assert params["cov_init"].shape[0] == params["cov_init"].shape[1]
         # a covariance matrix: positive definite
+        # a covariance matrix: symmetric (eigvalsh reads one triangle only) and
+        # positive definite
+        assert np.array_equal(params["cov_init"], params["cov_init"].T)
         assert np.all(np.linalg.eigvalsh(params["cov_init"]) > 0)
 
     def check_dimensions(self, X: np.ndarray):
